@@ -7,7 +7,7 @@ C10 (receiving direction) — `qrecovery/src/journal/rcvd.rs` `RcvdJournal` and 
 * `Cell` = `enum State` (`Empty | PacketReceived | AckSent | AckConfirmed`); `recv_time` is dropped (read only by
   `need_ack`, not modelled), `latest_ack_time` is kept as its `is_some()` (= ack-eliciting), `expire_time` as µs.
 * `genAck` = `gen_ack_frame_util` including the capacity arithmetic, `range_count_size_increment`, the
-  strict `capacity > size` test of the last range, and the **side effects that happen even when the frame is
+  `capacity >= size` test of the last range (comparison read from the source: `ackLastSpare`), and the **side effects that happen even when the frame is
   refused or cut** (every cell visited before the `Break` is tracked with `pn`).
 * `AckFrame.iter` = the range iterator with the three unchecked `u64` subtractions made explicit (`none` = underflow:
   panic in a dev build, 2^62-element ranges in release; DESIGN §7 #5).
@@ -209,7 +209,8 @@ def genFrame (largest delay cap : Nat) (bs : List Bool) : GenOut × Nat :=
     let rs :=
       if r.last then
         let size := rangeCountIncr r.ranges.length + varintSize (r.gap - 1) + varintSize (r.ack - 1)
-        if r.cap > size then r.ranges ++ [(r.gap - 1, r.ack - 1)] else r.ranges
+        -- `if capacity >= size` (fix-C10-ack-exact-fit; `ackLastSpare` = 0 for `>=`, 1 for the former strict `>`)
+        if size + ackLastSpare ≤ r.cap then r.ranges ++ [(r.gap - 1, r.ack - 1)] else r.ranges
       else r.ranges
     (.ok ⟨largest, delay, first, rs⟩, bs.length - r.left)
 
